@@ -127,6 +127,14 @@ def run(tier):
         for fl, side, g in gf:
             groups.setdefault((g["id"], fl), []).append((side, m))
         flags_on = {fl for fl, side, g in gf if side == "on"}
+        flags_off = {fl for fl, side, g in gf if side == "off"}
+        # an emission that only happens when white space / the report is switched OFF must itself be white space
+        for fl in flags_off & {"emit_whitespace", "emit_report"}:
+            lit = tu.skeleton(m["fmt"] or "")
+            ok = lit.strip() == "" and not [s for s in segs if s[0] == "ph"] and m["macro"] != "rust"
+            rep.ob("off-side.emits-only-whitespace", where + " (only when %s is off)" % fl, ok,
+                   "text is emitted only when %s is off: the token stream depends on the option" % fl,
+                   key="off-side:%s:%s" % (fl, m["fn"].split("::")[-1]), file=m["file"], line=m["line"], fn=m["fn"])
         if "emit_report" in flags_on:
             rep.violation("report.writes-nothing-to-module", where, "an emission to the module buffer under the emit_report guard",
                           key="report-leak:%s" % m["fn"].split("::")[-1], file=m["file"], line=m["line"], fn=m["fn"])
